@@ -247,3 +247,19 @@ func init() {
 		fmt.Println("Transform mismatching samples:", bad)
 	}})
 }
+
+func init() {
+	fw.Register(&fw.Check{ID: "DBG7", Level: "other", Run: func(e *fw.Env, r *fw.Result) {
+		t0 := time.Now()
+		calls := c11Alphabet(e.Seed)
+		fmt.Printf("alphabet built in %.2fs\n", time.Since(t0).Seconds())
+		pin()
+		for _, c := range calls {
+			t := time.Now()
+			c.run()
+			if d := time.Since(t); d > 20*time.Millisecond {
+				fmt.Printf("%6.0f ms  %s\n", d.Seconds()*1000, c.name)
+			}
+		}
+	}})
+}
